@@ -162,3 +162,12 @@ Fixpoint run_trace_h (st : store) (hs : list hop) : list string :=
   | h :: hs' => let '(st1, x) := hstep st h in (show_out x ++ "@" ++ show_store st1) :: run_trace_h st1 hs'
   end.
 Definition show_trace_h (hs : list hop) : string := sjoin "$" (run_trace_h [] hs).
+
+(* ---- getters *)
+From Model Require Import Getters.
+Open Scope string_scope.
+Definition show_getters (a : list msg) : string :=
+  let r := to_rel a in
+  sjoin "/" [show_bool (rel_is_empty r); show_bool (abs_channel_consistent a); show_res show_Z (abs_sequence_channel a);
+             show_Z (dur_rel r); show_opt key_value (key_signature_guess r);
+             show_msgs (abs_times_of_type [TIME_SIGNATURE; KEY_SIGNATURE] a)].
